@@ -131,7 +131,10 @@ theorem facts_shape :
     ∧ listSeek = [("DatasetLatestEntities", 0, 16), ("ds.InternalID", 2, 32)]
     ∧ listSkipToken = ["from != \"\""] ∧ listLimitTest = ["taken == count"]
     ∧ lookupReads = ["binary.BigEndian.Uint64(key[14:])", "binary.BigEndian.Uint32(key[10:])"]
-    ∧ lookupTimeSkip = ["at < recordedTime", "datasetDeleted || !datasetIncluded"] := by decide
+    ∧ lookupTimeSkip = ["at < recordedTime", "datasetDeleted || !datasetIncluded"]
+    -- commit times are taken under the dataset lock(s): the order "lock, time, write loop, id commit, data commit, counters"
+    ∧ storeSteps = ["ds.WriteLock.Lock", "time.Sleep", "time.Now().UnixNano", "ds.StoreEntitiesWithTransaction", "ds.store.commitIDTxn", "txn.Commit", "ds.updateDataset"]
+    ∧ txnSteps = ["sort.Strings", "dataset.(*Dataset).WriteLock.Lock", "time.Now().UnixNano", "ds.StoreEntitiesWithTransaction", "s.commitIDTxn", "txn.Commit", "ds.(*Dataset).updateDataset"] := by decide
 
 -- non-vacuity: a batch with a repeated id, an identical re-post, and a delete/un-delete flip
 example : let e : Ent := ⟨1, false, [], "a"⟩; let d : Ent := ⟨1, true, [], "a"⟩
